@@ -9,7 +9,9 @@ package absnfs
 import (
 	"bytes"
 	"encoding/binary"
+	"errors"
 	"io"
+	"math"
 	"os"
 	"path"
 	"strings"
@@ -46,8 +48,9 @@ func (h *NFSProcedureHandler) handleCreate(body io.Reader, reply *RPCReply, auth
 	newUID := authCtx.EffectiveUID
 	newGID := authCtx.EffectiveGID
 	var isExclusive bool
+	var sattr sattr3
 	if createHow == 0 || createHow == 1 {
-		sattr, err := decodeSattr3(body)
+		sattr, err = decodeSattr3(body)
 		if err != nil {
 			return nfsErrorWithWcc(reply, GARBAGE_ARGS), nil
 		}
@@ -93,12 +96,27 @@ func (h *NFSProcedureHandler) handleCreate(body io.Reader, reply *RPCReply, auth
 
 	newNode, err := h.server.handler.Create(node, name, attrs)
 	if err != nil {
-		// For EXCLUSIVE creates, if file already exists, return success
-		// (simplified idempotent behavior per RFC 1813 - full verifier comparison not implemented)
-		if isExclusive && os.IsExist(err) {
+		// The name already exists (nothing was truncated). GUARDED reports
+		// NFS3ERR_EXIST below. UNCHECKED returns the existing regular file,
+		// applying only an explicitly requested size. EXCLUSIVE returns it as
+		// well (simplified idempotent behavior per RFC 1813 - full verifier
+		// comparison not implemented).
+		if (createHow == 0 || isExclusive) && errors.Is(err, os.ErrExist) {
 			lookupPath := path.Join(node.path, name)
 			existingNode, lookupErr := h.server.handler.Lookup(lookupPath)
-			if lookupErr == nil {
+			if lookupErr == nil && existingNode.attrs.Mode.IsRegular() {
+				if sattr.SetSize {
+					if sattr.Size > uint64(math.MaxInt64) {
+						return nfsErrorWithWcc(reply, NFSERR_INVAL), nil
+					}
+					if err := h.server.handler.fs.Truncate(lookupPath, int64(sattr.Size)); err != nil {
+						return nfsErrorWithWcc(reply, mapError(err)), nil
+					}
+					h.server.handler.attrCache.Invalidate(lookupPath)
+					if existingNode, err = h.server.handler.Lookup(lookupPath); err != nil {
+						return nfsErrorWithWcc(reply, mapError(err)), nil
+					}
+				}
 				dirPostAttrs, _ := h.server.handler.GetAttr(node)
 				if dirPostAttrs == nil {
 					dirPostAttrs = dirPreAttrs
